@@ -426,10 +426,46 @@ def rule_r5(prog, res) -> None:
     memo_rule(prog, res, "C07.R5", lambda f: f.module.name.startswith("yaw.catalog"), "trees rebuilt with another binning are not picked up")
 
 
+def rule_r6(prog, res) -> None:
+    """the decision to reuse or rebuild is taken per patch: Catalog.build_trees hands EVERY patch to BinnedTrees.build
+    on every returning path (no shortcut that looks at one patch, a flag or a remembered binning), and consumes the
+    resulting iterator completely"""
+    from .. import symx
+
+    bt = prog.func("Catalog.build_trees")
+    res.touch(bt)
+    build = prog.func("BinnedTrees.build")
+    paths = [p for p in symx.explore(prog, bt, skip_tests=("logger",), env={"on_root()": True}) if p.outcome != "raise"]
+    if not paths:
+        raise AnalysisError("C07.R6: Catalog.build_trees has no returning path")
+    short = []
+    for p in paths:
+        ok = False
+        for ev in p.calls():
+            if ev.callee in ("iter_unordered", "map", "imap", "imap_unordered") and ev.expr.args and any(build in prog.resolve_call(ev.fi, ast.Call(func=a, args=[], keywords=[])).funcs() if isinstance(a, (ast.Name, ast.Attribute)) else False for a in ev.expr.args[:1]):
+                it = ev.expr.args[1] if len(ev.expr.args) > 1 else kwarg(ev.expr, "iterable")
+                if it is not None and symx.mentions(it, lambda y: isinstance(y, ast.Name) and y.id == "self"):
+                    ok = True
+        if not ok:
+            short.append(p)
+    if short:
+        res.violation(
+            "C07.R6",
+            bt,
+            short[0].node or bt.node,
+            f"Catalog.build_trees can return without handing every patch to BinnedTrees.build (when {short[0].cond_text()[:100]}): patches whose cached trees belong to another binning "
+            "(an interrupted build, a patch-level build) keep them and are counted with the wrong bins",
+            key_extra="build-trees-shortcut",
+        )
+    else:
+        res.ok("C07.R6", res.site(bt), f"all {len(paths)} returning path(s) dispatch BinnedTrees.build over self.values()")
+
+
 RULES = [
     ("C07.R1", rule_r1, QUICK),
     ("C07.R2", rule_r2, QUICK),
     ("C07.R3", rule_r3, QUICK),
     ("C07.R4", rule_r4, QUICK),
     ("C07.R5", rule_r5, QUICK),
+    ("C07.R6", rule_r6, QUICK),
 ]
